@@ -875,6 +875,19 @@ pub fn exec_plan(
                     }
                 } else if outcome != "ok" {
                     active = None;
+                    if faults_in_batch && outcome == "gave_up" {
+                        ex.probes.insert("batch_given_up_during_outage");
+                    }
+                    if !strict && !faults_in_batch && !crashed && panicked.is_none() {
+                        // faults were injected earlier in this execution, none during this batch: whatever they left
+                        // behind (a poisoned file, a torn tail, a half-made directory entry), the worker must get on
+                        violate!(
+                            "C10",
+                            "wedged_after_faults",
+                            "a batch of {bytes} bytes ended `{outcome}` after {attempts} attempt(s) although no fault was injected during it (earlier faults must not wedge the worker); failing calls: {:?}",
+                            log.iter().filter(|o| !o.ok).map(|o| format!("{:?} {}", o.kind, o.path)).collect::<Vec<_>>()
+                        );
+                    }
                     if strict && outcome == "gave_up" {
                         // no fault was injected anywhere in this execution: the filesystem works, so a batch that
                         // cannot be written is the file set's own doing
@@ -1211,6 +1224,39 @@ impl Engine for Fsim {
             }
             for (p, r, d) in &ex.violations {
                 out.violate(p, r, format!("[faults {faults:?}] {d}"));
+            }
+        }
+        // outage windows: every filesystem call fails for a stretch (full disk, unmounted volume, revoked
+        // permissions), long enough to exhaust the retries of a batch or two; afterwards the disk works again
+        let n_window = if ctx.thorough { 6 } else { 2 };
+        for _ in 0..n_window {
+            let mut faults = BTreeMap::new();
+            let start = ch.choose(kinds.len() as u32 + 2) as u64;
+            let len = 2 + ch.choose(22) as u64;
+            for idx in start..start + len {
+                faults.insert(idx, Fault::Err);
+            }
+            let mut pick = |n: u32| -> u32 { ch.choose(n) };
+            let ex = exec_plan(&plan, &faults, &mut pick, false, false);
+            executions += 1;
+            out.steps += ex.ops;
+            if ex.fired.len() >= 2 {
+                out.probe("outage_window_execution");
+            }
+            if ex.probes.contains("batch_given_up_during_outage") {
+                out.fault("outage_window_exhausted_retries");
+            }
+            for (_, k, _) in &ex.fired {
+                out.fault(k);
+            }
+            if !ex.fired.is_empty() {
+                fired_total += 1;
+            }
+            for p in &ex.probes {
+                out.probe(p);
+            }
+            for (p, r, d) in &ex.violations {
+                out.violate(p, r, format!("[outage: every filesystem call from #{start} to #{} fails] {d}", start + len - 1));
             }
         }
         out.evals = executions;
